@@ -127,6 +127,8 @@ def real_therm(kind):
         t = GeneralThermodynamics(ds.NICRAL_TDB, ['NI', 'AL', 'CR'], ['FCC_A1'])
     elif kind == 'real_fecrni':
         t = GeneralThermodynamics(ds.FECRNI_DB, ['FE', 'CR', 'NI'], ['FCC_A1', 'BCC_A2'])
+    elif kind == 'real_fecrni_perm':
+        t = GeneralThermodynamics(ds.FECRNI_DB, ['FE', 'NI', 'CR'], ['FCC_A1', 'BCC_A2'])
     else:
         raise ValueError(kind)
     _REAL[kind] = t
@@ -460,6 +462,10 @@ def execute_permuted_pair(rec):
             pp = perm
         if cfg['provider'] == 'synth':
             m, info = build(cfg, provider_perm=pp)
+        elif cfg0['provider'] == 'real_fecrni':
+            cfg['provider'] = 'real_fecrni' if variant == 'base' else 'real_fecrni_perm'
+            real_therm(cfg['provider']).clearCache()
+            m, info = build(cfg)
         else:
             cfg['provider'] = 'real_nicral_fcc' if variant == 'base' else 'real_nicral_fcc_perm'
             m, info = build(cfg)
